@@ -7,17 +7,168 @@ package ucon
 
 // Contracts for sortition.go — property C04.
 
-// search: binary search for the least index at which a monotone predicate holds (n when it holds nowhere).
+// search: binary search. For ANY predicate the result is in [0, n], the predicate holds at the result (if < n) and fails
+// just below it; for a monotone predicate the result is the least index at which it holds (n when it holds nowhere).
 //@ func search props C04
 //@ panics none
 //@ pureparam f
 //@ requires 0 <= n && n < 2^62
-//@ requires forall a: int, b: int :: { f(a), f(b) } 0 <= a && a <= b && b < n && f(a) ==> f(b)
+//@ let mono = forall a: int, b: int :: { f(a), f(b) } 0 <= a && a <= b && b < n && f(a) ==> f(b)
 //@ loop i invariant [range] 0 <= i && i <= j && j <= n
-//@ loop i invariant [below] forall k: int :: { f(k) } 0 <= k && k < i ==> !f(k)
+//@ loop i invariant [below] mono ==> (forall k: int :: { f(k) } 0 <= k && k < i ==> !f(k))
+//@ loop i invariant [just-below] i > 0 ==> !f(i - 1)
 //@ loop i invariant [at-j] j < n ==> f(j)
 //@ loop i decreases j - i
 //@ modifies nothing
 //@ ensures [range] 0 <= result && result <= n
-//@ ensures [least] forall k: int :: { f(k) } 0 <= k && k < result ==> !f(k)
 //@ ensures [holds] result < n ==> f(result)
+//@ ensures [just-below] result > 0 ==> !f(result - 1)
+//@ ensures [least] mono ==> (forall k: int :: { f(k) } 0 <= k && k < result ==> !f(k))
+
+// ---------------------------------------------------------------------------------------------------------
+// The VRF output and floating point are uninterpreted: the seat count is specified relative to the named function
+// c04Choose (what `choose` computes from the VRF hash, the stake and the selection probability) and the VRF hash relative
+// to c04VRF (the unique output for a key, a message and a proof — VRF uniqueness is the cryptographic assumption).
+
+//@ spec func c04Choose(h: common.Hash, w: int, p: float64) int
+//@ spec func c04Prob(threshold: int, total: int) float64
+//@ spec func c04VRF(pk: int, seed: common.Hash, role: int, index: int, proof: Slice) common.Hash
+//@ spec func c04VRFOK(pk: int, seed: common.Hash, role: int, index: int, proof: Slice) bool
+//@ spec func c04MaxPriority(h: common.Hash, j: int) common.Hash
+
+// choose: the seat count is always between 0 and the stake; the all-ones hash selects the whole stake, the zero hash nothing.
+//@ func choose props C04
+//@ requires [nonnil] w != nil
+//@ requires 0 <= big(w) && big(w) < 2^62
+//@ requires big(maxVrfHashValue) == 2^256 - 1
+//@ loop j invariant 0 <= j
+//@ modifies c04BF
+//@ ensures [range]   0 <= result && result <= big(w)
+//@ ensures [function-of-inputs] assumed result == c04Choose(hash, big(w), p)
+
+// Clause 4 (binding): the VRF message is the 40-byte string seed ‖ be32(role) ‖ be32(index): distinct (seed, role, index)
+// give distinct messages.
+//@ func uint32ToBytes props C04
+//@ panics none
+//@ modifies nothing
+//@ ensures [be32] fresh(result) && len(result) == 4 &&
+//@         result[0] == i / 2^24 && result[1] == (i / 2^16) % 256 && result[2] == (i / 2^8) % 256 && result[3] == i % 256
+
+//@ func MakeM props C04
+//@ panics none
+//@ modifies nothing
+//@ ensures [len]   fresh(result) && len(result) == 40
+//@ ensures [seed]  forall k: int :: 0 <= k && k < 32 ==> result[k] == seed[k]
+//@ ensures [role]  result[32] == role / 2^24 && result[33] == (role / 2^16) % 256 && result[34] == (role / 2^8) % 256 && result[35] == role % 256
+//@ ensures [abstract] assumed c04Msg(result) == c04M(seed, role, index)
+//@ ensures [index] result[36] == index / 2^24 && result[37] == (index / 2^16) % 256 && result[38] == (index / 2^8) % 256 && result[39] == index % 256
+
+// Injectivity of the layout (pure arithmetic): equal four-byte big-endian encodings come from equal 32-bit values.
+//@ lemma [C04.be32-injective] forall a: int, b: int :: 0 <= a && a < 2^32 && 0 <= b && b < 2^32 &&
+//@         a / 2^24 == b / 2^24 && (a / 2^16) % 256 == (b / 2^16) % 256 && (a / 2^8) % 256 == (b / 2^8) % 256 && a % 256 == b % 256 ==> a == b
+
+// ---------------------------------------------------------------------------------------------------------
+// Clauses 3 and 5: what a verifier accepts. Abstractions (each an idealisation named in the evidence):
+//   c04Msg(m)            identity of the 40-byte VRF message (MakeM's result, not mutated before use); c04M(seed, role, index) its
+//                        abstract value — MakeM's [layout] postcondition and the be32 lemma show the layout is injective;
+//   c04VRFOut / c04VRFOK the VRF's unique output / validity for (key, message, proof)  (VRF uniqueness: cryptographic assumption);
+//   c04Prob              the selection probability threshold/totalStake as computed by the big.Float pipeline (floats uninterpreted:
+//                        a ghost table c04BF of big.Float values makes "same inputs, same probability" a fact, nothing numeric);
+//   c04Choose            what `choose` returns for (hash, stake, probability)  (assumed to be a function of its inputs).
+
+//@ spec func c04Msg(m: Slice) int
+//@ spec func c04M(seed: common.Hash, role: int, index: int) int
+//@ spec func c04ProofId(p: Slice) int
+//@ spec func c04VRFOut(pk: int, msg: int, proof: int) common.Hash
+//@ spec func c04VRFValid(pk: int, msg: int, proof: int) bool
+//@ spec func c04FromU(x: int) float64
+//@ spec func c04FromI(x: int) float64
+//@ spec func c04FQuo(x: float64, y: float64) float64
+//@ spec func c04F64(x: float64) float64
+//@ spec func c04P(threshold: int, total: int) float64 = c04F64(c04FQuo(c04FromU(threshold), c04FromI(total)))
+//@ ghost var c04BF: map[int]float64
+
+// big.Float pipeline: values live in the ghost table c04BF (uninterpreted float64 results).
+//@ func (*math/big.Float).SetUint64 props C04
+//@ trusted
+//@ modifies c04BF
+//@ ensures result == z && c04BF == store(old(c04BF), z, c04FromU(x))
+//@ func (*math/big.Float).SetInt props C04
+//@ trusted
+//@ modifies c04BF
+//@ ensures result == z && c04BF == store(old(c04BF), z, c04FromI(big(x)))
+//@ func (*math/big.Float).Quo props C04
+//@ trusted
+//@ modifies c04BF
+//@ ensures result == z && c04BF == store(old(c04BF), z, c04FQuo(old(c04BF)[x], old(c04BF)[y]))
+//@ func (*math/big.Float).Float64 props C04
+//@ trusted
+//@ pure
+//@ ensures result0 == c04F64(c04BF[x])
+
+//@ func (github.com/youchainhq/go-youchain/crypto/vrf.PublicKey).ProofToHash props C04
+//@ trusted
+//@ pure
+//@ ensures result1 == nil ==> c04VRFValid(recv, c04Msg(m), c04ProofId(proof)) && result0 == c04VRFOut(recv, c04Msg(m), c04ProofId(proof))
+
+// A verifier accepts a sortition credential only for the unique VRF output of this key on the message of exactly this
+// seed / step (role) / round index, and only with the seat count `choose` gives for that output — and only if it is positive.
+//@ func VrfVerifySortition props C04
+//@ requires [nonnil] stake != nil && totalStake != nil
+//@ assume [stake-fits-uint32] 0 <= big(stake) && big(stake) < 2^32     // seat counts are compared as uint32: stakes of 2^32 units and more would be truncated
+//@ assume [max-hash-constant] big(maxVrfHashValue) == 2^256 - 1          // set once by the package's init()
+//@ let msg = c04M(seed, role, index)
+//@ let out = c04VRFOut(pk, msg, c04ProofId(proof))
+//@ modifies c04BF
+//@ ensures [accept-implies-valid-proof] result0 ==> result1 == nil && big(totalStake) != 0 && c04VRFValid(pk, msg, c04ProofId(proof))
+//@ ensures [accept-implies-seat-count] result0 ==> subUsers == c04Choose(out, big(stake), c04P(threshold, big(totalStake))) && subUsers > 0
+//@ ensures [reject-has-error] !result0 ==> result1 != nil
+
+// Proposer priority: accepted only if the claimed seat count is the recomputed one AND the claimed priority is the
+// priority computed from the VRF output and that seat count.
+//@ effectfree (*math/big.Int).Bytes github.com/youchainhq/go-youchain/crypto.Keccak256Hash github.com/youchainhq/go-youchain/common.Big1
+//@ spec func c04Priority(h: common.Hash, j: int) common.Hash
+//@ func computePriority props C04
+//@ requires [nonnil] j != nil
+//@ modifies all
+//@ ensures [function-of-inputs] assumed result == c04Priority(hash, old(big(j)))
+
+// reflect.DeepEqual on two 32-byte arrays is array equality (trusted).
+//@ func reflect.DeepEqual props C04
+//@ trusted
+//@ pure
+//@ ensures hastype(x, common.Hash) && hastype(y, common.Hash) ==> result == (unbox(x, common.Hash) == unbox(y, common.Hash))
+
+//@ func VrfVerifyPriority props C04
+//@ requires [nonnil] stake != nil && totalStake != nil
+//@ assume [stake-fits-uint32] 0 <= big(stake) && big(stake) < 2^32
+//@ assume [max-hash-constant] big(maxVrfHashValue) == 2^256 - 1
+//@ let msg = c04M(seed, role, index)
+//@ let out = c04VRFOut(pk, msg, c04ProofId(proof))
+//@ modifies all, c04BF
+//@ ensures [accept-implies-valid-proof] result0 ==> result1 == nil && c04VRFValid(pk, msg, c04ProofId(proof))
+//@ ensures [accept-implies-seat-count] result0 ==> subUsers == c04Choose(out, old(big(stake)), c04P(threshold, old(big(totalStake))))
+//@ ensures [accept-implies-priority]   result0 ==> priority == c04Priority(out, subUsers)
+
+// ---------------------------------------------------------------------------------------------------------
+// The wrappers the consensus engine actually calls (sortition_verifier.go): success means the VRF check succeeded,
+// for exactly the fields of the message under verification.
+
+//@ ghost var c04PrioOK: bool
+//@ ghost var c04SortOK: bool
+
+//@ func (*Server).verifyPriority props C04
+//@ requires [nonnil] s != nil && data != nil
+//@ modifies all, c04PrioOK, c04BF
+//@ ghost at entry: c04PrioOK := false
+//@ assert before call VrfVerifyPriority: [binds-message] a2 == data.RoundIndex && a3 == data.Step && a4 == data.SortitionProof && a5 == data.Priority && a6 == data.SubUsers
+//@ ghost after call VrfVerifyPriority: c04PrioOK := ret0 && ret1 == nil
+//@ ensures [accept-implies-verified] result == nil ==> c04PrioOK
+
+//@ func (*Server).verifySortition props C04
+//@ requires [nonnil] s != nil && data != nil
+//@ modifies all, c04SortOK, c04BF
+//@ ghost at entry: c04SortOK := false
+//@ assert before call VrfVerifySortition: [binds-message] a2 == data.RoundIndex && a3 == data.Step && a4 == data.Proof && a5 == data.Votes
+//@ ghost after call VrfVerifySortition: c04SortOK := ret0 && ret1 == nil
+//@ ensures [accept-implies-verified] result == nil ==> c04SortOK
